@@ -189,6 +189,7 @@ type Enc struct {
 	grounded  map[string]bool
 	named     map[string]string // literals declared by the prelude
 	axiomSet  map[string]bool
+	funRet    map[string]string // engine-declared uninterpreted functions
 }
 
 func NewEnc() *Enc {
@@ -227,6 +228,10 @@ func (e *Enc) DeclConst(name, sort string) string {
 }
 func (e *Enc) DeclFun(name string, args []string, ret string) string {
 	e.Declare(name, fmt.Sprintf("(declare-fun %s (%s) %s)", name, strings.Join(args, " "), ret))
+	if e.funRet == nil {
+		e.funRet = map[string]string{}
+	}
+	e.funRet[name] = ret
 	return name
 }
 func (e *Enc) FreshConst(prefix, sort string) string {
